@@ -271,24 +271,32 @@ fn gen_statements(fields: &Fields, encoding: Encoding) -> syn::Result<proc_macro
                 if let Some(p) = cd.to_nil_path() {
                     quote! {
                         Err(e) if e.is_unknown_variant() && #p().is_some() => {
+                            __d777.set_position(__q777);
                             __d777.skip()?
                         }
                     }
                 } else if is_option(&field.typ, |_| true) {
                     quote! {
-                        Err(e) if e.is_unknown_variant() => __d777.skip()?,
+                        Err(e) if e.is_unknown_variant() => {
+                            __d777.set_position(__q777);
+                            __d777.skip()?
+                        }
                     }
                 } else {
                     quote!()
                 }
             } else if is_option(&field.typ, |_| true) {
                 quote! {
-                    Err(e) if e.is_unknown_variant() => __d777.skip()?,
+                    Err(e) if e.is_unknown_variant() => {
+                        __d777.set_position(__q777);
+                        __d777.skip()?
+                    }
                 }
             } else {
                 let ty = &field.typ;
                 quote! {
                     Err(e) if e.is_unknown_variant() && <#ty as minicbor::Decode::<Ctx>>::nil().is_some() => {
+                        __d777.set_position(__q777);
                         __d777.skip()?
                     }
                 }
@@ -311,8 +319,12 @@ fn gen_statements(fields: &Fields, encoding: Encoding) -> syn::Result<proc_macro
             let tag  = decode_tag(&field.attrs);
             let name = &field.ident;
 
+            // An unknown enum variant is replaced by the field's nil value. The item has
+            // only been consumed partially at that point (e.g. the bare index of an
+            // `index_only` enum is already gone), so skipping restarts at its beginning.
             quote! {{
                 #tag
+                let __q777 = __d777.position();
                 match #decode_fn(__d777, __ctx777) {
                     Ok(__v777) => #name = #value,
                     #unknown_var_err
